@@ -394,7 +394,8 @@ fn adversarial_rules() -> BoxedStrategy<crate::props::c03::Spec> {
     let p = prop_oneof![
         3 => (0..WEIRD_PATHS.len()).prop_map(|i| WEIRD_PATHS[i].to_string()),
         2 => relpath(),
-        2 => crate::gen::text::text(6),
+        // (capped: glob matching with several wildcards is quadratic in the path length, a 200 KiB path costs minutes)
+        2 => crate::gen::text::text(6).prop_map(|s| s.chars().take(2048).collect::<String>()),
         1 => (0..crate::props::c03::UNINTERPRETABLE.len()).prop_map(|i| crate::props::c03::UNINTERPRETABLE[i].to_string()),
     ];
     let pre = proptest::option::weighted(0.5, prop_oneof![Just("a/".to_string()), Just("".to_string()), Just("/".to_string()), Just("a/../b".to_string()), Just("./".to_string()), Just("ünï".to_string()), prefix()]);
@@ -404,7 +405,8 @@ fn adversarial_rules() -> BoxedStrategy<crate::props::c03::Spec> {
         (p.clone(), pre.clone(), any::<bool>(), pre, prop_oneof![Just("item".to_string()), Just("s1".to_string()), Just("nope".to_string())])
             .prop_map(|(pattern, in_src, products, in_dst, from)| RuleSpec::Match { pattern, in_src, products, in_dst, from }),
     ];
-    let arts = proptest::collection::btree_map(p, digests(true), 0..4);
+    // digest sets with one or two algorithms, or (representable in parsed links) none at all
+    let arts = proptest::collection::btree_map(p, prop_oneof![5 => digests(true), 1 => Just(Digests::new())], 0..4);
     (proptest::collection::vec(rule.clone(), 0..4), proptest::collection::vec(rule, 0..4), arts.clone(), arts.clone(), arts.clone(), arts)
         .prop_map(|(expected_materials, expected_products, materials, products, m1, p1)| crate::props::c03::Spec {
             inspection: false,
@@ -428,7 +430,7 @@ impl Property for C14 {
          char boundary at byte 8) in link and layout signatures, step names with glob metacharacters / path separators / control characters / \
          empty, non-normalised artifact paths (./x, a/../b, /abs, empty, ..) under MATCH/CREATE/.. rules, empty collections, thresholds and \
          return values at and beyond u32/i32/u64, extra files in the link directory (garbage, deep nesting, other metadata type), a step delegated to a sub-layout that delegates the same step to the same functionary while its link directory is a symbolic link back to the link directory (., absolute, ../dir, itself, dangling), run through \
-         in_toto_verify; run_command (what in_toto_run and inspections execute) on commands writing 0-1024 KiB to stderr and 0-256 KiB to stdout in either order, called in a process of its own: if that process does not finish, the check looks at what the processes are blocked on (library in a pipe read, command in a pipe write = cannot make progress) instead of trusting a time limit; adversarial paths/patterns/prefixes through rule application; (b) mutational: bit flips, truncations, dictionary \
+         in_toto_verify; run_command (what in_toto_run and inspections execute) on commands writing 0-1024 KiB to stderr and 0-256 KiB to stdout in either order, called in a process of its own: if that process does not finish, the check looks at what the processes are blocked on (library in a pipe read, command in a pipe write = cannot make progress) instead of trusting a time limit; adversarial paths/patterns/prefixes and artifacts with empty digest sets through rule application; (b) mutational: bit flips, truncations, dictionary \
          token insertion, range deletion/duplication, byte overwrite, splices over generated valid documents of every type and over the \
          repository's Python-made fixtures, OpenSSL-made SPKI/PKCS#8 files, PEM, hex, key ids and PAE encodings, offered to every parser, key \
          importer (from_spki, from_pem_spki, from_pkcs8, from_ed25519, from_ecdsa, hex decoders, KeyId::prefix, try_from_bytes, \
